@@ -6255,7 +6255,12 @@ class CodegenCtx:
         result.add(f"{self.program_name}_result_t {self.program_name}_feed({start_typename}start, const uint8_t *end, {self.program_name}_state_t *state) {{")
         with result as contents:
             if self._needs_end_check():
-                contents.add(f"if ({'*start' if ProgramData.do(ProgramFlag.INDIRECT_START_PTR) else 'start'} == end) return {self.program_name.upper()}_OK;")
+                chunk_is_empty = f"{'*start' if ProgramData.do(ProgramFlag.INDIRECT_START_PTR) else 'start'} == end"
+                if self.generic_fail_state in self.dfa.states:
+                    # (an empty chunk changes nothing: once failed, the answer stays FAIL)
+                    contents.add(f"if ({chunk_is_empty}) return state->state == {self.dfa.states.index(self.generic_fail_state)} ? {self.program_name.upper()}_FAIL : {self.program_name.upper()}_OK;")
+                else:
+                    contents.add(f"if ({chunk_is_empty}) return {self.program_name.upper()}_OK;")
                 contents.add()
                 # Generate an explicit input check 
             # Generate the `inval` variable
